@@ -900,3 +900,21 @@ V('MIRROR_delegated_unmirrored', ['C12'], 'bitstore.py', "        return bool(se
 S('MIRROR_delegated_mirrored', ['C12'], 'bitstore.py', "        return bool(self._bitarray.__getitem__(-index - 1))", "        return self.getindex_msb0(-index - 1)")
 V('CHOKE_in_form_no_raise', ['C15', 'C06'], 'dtypes.py', "                if length not in self.allowed_lengths:\n                    if self.allowed_lengths.only_one_value():",
   "                if length in self.allowed_lengths:\n                    pass\n                elif False:\n                    if self.allowed_lengths.only_one_value():", ['CHOKE'])
+
+
+# ---- package-wide: every private function / method renamed (and every reference with it)
+def _pkg_rename_private_functions(srcs):
+    names = set()
+    for fn, t in srcs.items():
+        if fn.endswith('luts.py'):
+            continue
+        for n in ast.walk(ast.parse(t)):
+            if isinstance(n, ast.FunctionDef) and n.name.startswith('_') and not n.name.startswith('__'):
+                names.add(n.name)
+    if not names:
+        return None
+    pat = re.compile(r'\b(' + '|'.join(sorted(map(re.escape, names), key=len, reverse=True)) + r')\b')
+    return {fn: pat.sub(lambda m_: m_.group(1) + '_rn', t) for fn, t in srcs.items()}
+
+
+VARIANTS.append(dict(id='PKG_S_rename_private_functions', props=ALL + ['C05'], file='*', expect=[], kind='silent', where='', pkg_all_fn=_pkg_rename_private_functions))
